@@ -671,6 +671,12 @@ func (b *BaseStore) Sync(ctx context.Context, heads []ipfslog.Entry) error {
 			h.SetRefs([]cid.Cid{})
 		}
 
+		if h.GetLogID() != b.id {
+			span.AddEvent("store-sync-foreign-log-id")
+			b.Logger().Debug("warning: Given input entry was written for another log and was discarded")
+			continue
+		}
+
 		identityProvider := b.Identity().Provider
 		if identityProvider == nil {
 			return fmt.Errorf("identity-provider is required, cannot verify entry")
@@ -1029,6 +1035,14 @@ func (b *BaseStore) replicationLoadComplete(ctx context.Context, logs []ipfslog.
 	b.Logger().Debug("replication load complete")
 	entries := []ipfslog.Entry{}
 	for _, log := range logs {
+		// ipfslog's Join skips entries of another log id but still adopts them
+		// as heads, which makes them part of Values() and of the index: drop
+		// any fetched log holding an entry that was not written for this store
+		if !entriesBelongToLog(log, oplog.GetID()) {
+			b.Logger().Warn("fetched entry was written for another log, discarding it")
+			continue
+		}
+
 		_, err := oplog.Join(log, -1)
 		if err != nil {
 			// a log that cannot be joined (unauthorised or badly signed entry)
@@ -1071,6 +1085,16 @@ func (b *BaseStore) replicationLoadComplete(ctx context.Context, logs []ipfslog.
 	if err := b.emitters.evtReplicated.Emit(stores.NewEventReplicated(b.Address(), entries, len(logs))); err != nil {
 		b.Logger().Warn("unable to emit event replicated", zap.Error(err))
 	}
+}
+
+func entriesBelongToLog(l ipfslog.Log, id string) bool {
+	for _, e := range l.GetEntries().Slice() {
+		if e.GetLogID() != id {
+			return false
+		}
+	}
+
+	return true
 }
 
 func (b *BaseStore) SortFn() ipfslog.SortFn {
